@@ -182,3 +182,43 @@ func (c *Ctx) perConnRoots() []*ssa.Function {
 	}
 	return roots
 }
+
+// callSitesOf lists the static call sites (call, go, defer) of fn in the module, and whether fn is also used
+// as a value somewhere (then not every caller is known).
+func (c *Ctx) callSitesOf(fn *ssa.Function) (sites []ssa.CallInstruction, escapes bool) {
+	if c.callSites == nil {
+		c.callSites = map[*ssa.Function][]ssa.CallInstruction{}
+		c.fnEscapes = map[*ssa.Function]bool{}
+		for _, g := range c.Funcs {
+			for _, b := range g.Blocks {
+				for _, in := range b.Instrs {
+					if ci, ok := in.(ssa.CallInstruction); ok {
+						if cal := ci.Common().StaticCallee(); cal != nil {
+							c.callSites[cal] = append(c.callSites[cal], ci)
+						}
+					}
+					var ops []*ssa.Value
+					for _, o := range in.Operands(ops) {
+						if f, ok := (*o).(*ssa.Function); ok {
+							if ci, isCall := in.(ssa.CallInstruction); isCall && ci.Common().Value == ssa.Value(f) {
+								continue
+							}
+							c.fnEscapes[f] = true
+						}
+					}
+				}
+			}
+		}
+	}
+	return c.callSites[fn], c.fnEscapes[fn]
+}
+
+// paramIndex returns the index of p among fn's parameters (-1 if none).
+func paramIndex(fn *ssa.Function, p *ssa.Parameter) int {
+	for i, q := range fn.Params {
+		if q == p {
+			return i
+		}
+	}
+	return -1
+}
